@@ -273,6 +273,31 @@ def check(ctx):
                 for a, d in core.compare_decisions(gi, o):
                     rec = dict(g=gid, o=o, inputs=[""], kind="gen", cid="%s/%s/gen" % (gid, o), impl=None, model=gi["opts"][o].get("gen"), spec=None)
                     diffs.append((rec, a, d, False))
+    # statement-level tie (C01_generated_code_is_peg speaks about Model/SEmit.v's statements): every rule function of
+    # every generated file, statement by statement, against semit_all; and the theorem's side condition per grammar
+    if pid == "C01":
+        st_cmp, st_deep, st_notdeep = 0, 0, []
+        for gid, gi in data["grammars"].items():
+            for o, oi in gi["opts"].items():
+                if oi.get("semit") is None or oi.get("stmts") is None or oi.get("conv_err"):
+                    continue
+                st_cmp += 1
+                if oi.get("deep"):
+                    st_deep += 1
+                else:
+                    st_notdeep.append("%s/%s" % (gid, o))
+                if oi["semit"] != oi["stmts"]:
+                    ms, ks = oi["semit"].split(";"), oi["stmts"].split(";")
+                    k = next((i for i, (a, b) in enumerate(zip(ms, ks)) if a != b), min(len(ms), len(ks)))
+                    nm = (oi.get("names") or [])[k] if k < len(oi.get("names") or []) else k
+                    ma, ka = (ms[k] if k < len(ms) else "-").split(","), (ks[k] if k < len(ks) else "-").split(",")
+                    j = next((i for i, (a, b) in enumerate(zip(ma, ka)) if a != b), min(len(ma), len(ka)))
+                    d = "the statements emitted for rule %s differ from Model/SEmit.v at statement %d: emitted ..%s, model ..%s" % (
+                        nm, j, ",".join(ka[max(0, j - 3):j + 4])[:120], ",".join(ma[max(0, j - 3):j + 4])[:120])
+                    rec = dict(g=gid, o=o, inputs=[""], kind="gen", cid="%s/%s/semit" % (gid, o), impl=None, model=None, spec=None)
+                    diffs.append((rec, "statements", d, False))
+        ctx.coverage["statement_level"] = {"files_compared": st_cmp, "side_condition_deep_table_b_true": st_deep,
+                                           "side_condition_false": st_notdeep[:10]}
     # side conditions of the theorems, re-evaluated by the extracted checkers for every grammar / option set used
     for gid, gi in data["grammars"].items():
         for o in opts:
